@@ -17,8 +17,14 @@ def gen_cost(rng, ndim, allow_vector=False):
     return dict(kind=k, t=rng.choice([0.0, 0.5, 1.0]))
 
 
-def gen_cons(rng, ndim, box=None):
-    """deterministic, idempotent constraints that map the box (if any) into itself"""
+def gen_cons(rng, ndim, box=None, push_out=0.0):
+    """deterministic, idempotent constraints that map the box (if any) into itself; with probability push_out (C02 only)
+    constraints that push points OUT of the box: a coordinate pinned beyond one of its finite sides"""
+    if box is not None and rng.random() < push_out:
+        i = rng.randrange(ndim)
+        c = box[0][i] - rng.choice([0.25, 1.0]) if rng.random() < 0.5 else box[1][i] + rng.choice([0.25, 1.0])
+        if c not in (INF, -INF) and c == c:
+            return dict(kind="pin", i=i, c=c, inplace=rng.random() < 0.4)
     kinds = ["ident", "pin", "clamp", "grid"]
     if box is None or (len(set(box[0])) == 1 and len(set(box[1])) == 1):
         kinds.append("tie")
@@ -87,7 +93,7 @@ def open_sides(rng, box):
 
 
 def gen_script(rng, solvers=L.SOLVERS, nops=(3, 9), p_mid=0.5, allow_modes=False, allow_vector=False,
-               constraints=True, limits=True, monitors=True):
+               constraints=True, limits=True, monitors=True, push_out=0.0):
     kind = rng.choice(list(solvers))
     ndim = rng.choice([1, 2, 2, 3])
     npop = rng.choice([4, 5, 6]) if kind in ("DE", "DE2") else 1
@@ -119,7 +125,7 @@ def gen_script(rng, solvers=L.SOLVERS, nops=(3, 9), p_mid=0.5, allow_modes=False
                 o["tight"], o["clip"] = None, None
         cfg.append(o)
     if constraints and rng.random() < 0.5:
-        cfg.append(dict(op="SetConstraints", cons=gen_cons(rng, ndim, box)))
+        cfg.append(dict(op="SetConstraints", cons=gen_cons(rng, ndim, box, push_out)))
     cur_box = dict(op="SetStrictRanges", lo=sbox[0], hi=sbox[1]) if any(o["op"] == "SetStrictRanges" for o in cfg) else None
     if rng.random() < 0.4:
         cfg.append(dict(op="SetPenalty", pen=gen_pen(rng)))
@@ -153,7 +159,7 @@ def gen_script(rng, solvers=L.SOLVERS, nops=(3, 9), p_mid=0.5, allow_modes=False
                     inst = [o for o in ops if o["op"] == "SetStrictRanges" and o["lo"] is not None]
                     if inst and all(v not in (INF, -INF) for v in inst[-1]["lo"] + inst[-1]["hi"]):
                         cb = (inst[-1]["lo"], inst[-1]["hi"])
-                ops.append(dict(op="SetConstraints", cons=gen_cons(rng, ndim, cb)))
+                ops.append(dict(op="SetConstraints", cons=gen_cons(rng, ndim, cb, push_out)))
             elif m == "box":
                 last = [o for o in ops if o["op"] == "SetStrictRanges" and o["lo"] is not None]
                 if last and rng.random() < 0.35:
